@@ -271,7 +271,7 @@ def to_frac(e, cache):
 class IdProver:
     """identities / sign conditions between rational functions, decided by z3 after clearing denominators"""
 
-    def __init__(self, assumptions=(), timeout_ms=20000):
+    def __init__(self, assumptions=(), timeout_ms=60000):
         self.assumptions = list(assumptions)
         self.timeout_ms = timeout_ms
         self.cache = {}
